@@ -299,6 +299,12 @@ impl<'p, W, R, T> CompilationScope<'p, W, R, T> {
         spec: XFuncSpec,
         func: XStaticFunction<W, R, T>,
     ) -> Result<XExpr<W, R, T>, CompilationError> {
+        // calls through an anonymous function's value cannot be tracked: it needs its forwards where it is created
+        if let XStaticFunction::UserFunction(ud_func) = &func {
+            let forward_requirements: Vec<_> =
+                ud_func.forward_requirements.iter().cloned().collect();
+            self.require_forwards(forward_requirements)?;
+        }
         let cell_idx = self.cells.ipush(Cell::Variable {
             t: spec.xtype(),
             forward_requirements: Default::default(),
